@@ -121,6 +121,7 @@ fn read_script_strategy() -> BoxedStrategy<Vec<BOp>> {
         1 => proptest::sample::select(vec!["/", "/a", "/a/b", "a/../..", "/Root Entry", "/x/y/z"]).prop_map(|s| BOp::QueryPath(s.to_string())),
         4 => (any::<u16>(), vec(hop_read_strategy(), 1..10)).prop_map(|(sel, script)| BOp::Stream { sel, script }),
         3 => vec(hop_read_strategy(), 1..8).prop_map(|script| BOp::AllStreams { script }),
+        2 => (any::<u16>(), 0u8..6, vec(hop_read_strategy(), 1..6)).prop_map(|(sel, k, script)| BOp::IterWhileStream { sel, k, script }),
     ];
     vec(bop, 1..8).boxed()
 }
@@ -175,6 +176,7 @@ fn read_only_check_inner(bytes: &[u8], script: &[BOp], rep: &mut CaseReport) -> 
         BOp::Walk,
         BOp::ListRoot,
         BOp::QueryAll,
+        BOp::IterWhileStream { sel: 0, k: 1, script: vec![HOp::Read(100), HOp::SeekStart(0), HOp::FillConsume(100)] },
         BOp::AllStreams { script: vec![HOp::Read(100), HOp::FillConsume(40000), HOp::SeekEnd(i64::MIN), HOp::SeekCur(i64::MIN), HOp::SeekStart(u64::MAX), HOp::SeekFrac(30000, 0), HOp::ReadToEnd, HOp::Pos, HOp::Len] },
     ];
     for strict in [false, true] {
